@@ -78,6 +78,7 @@ def correspondence(ctx):
         _judge(ctx, stream, bench, suspects)
         if name == "semver":
             ctx.sample({"line": lines[100], "model": answers[100], "scheme": name})
+    _cross_scheme(ctx)
 
 
 def _judge(ctx, stream, bench, suspects):
@@ -129,6 +130,84 @@ def _judge(ctx, stream, bench, suspects):
         if failed is not None:
             d["clause"] = failed
             d["result"] = [B.TXT[c] + ("" if c == "star" else m[r][0]) for c, r in impl_c]
+            ctx.disagree(stream, line, impl, ans, True, d, spec=ans)
+        else:
+            ctx.disagree(stream, line, impl, ans, False, d, spec=ans)
+
+
+def _cross_scheme(ctx):
+    """the same constraint texts simplified under several schemes, interleaved in one process: whatever is
+    remembered about a list under one scheme must not leak into the next (the order of 1.0.0-alpha and 1.0.0
+    differs between deb and semver, and the versions belong to different classes)"""
+    from harness import pools
+    from harness.props.c07 import SHARED_TEXTS
+    rng = ctx.rng("c08-cross")
+    tables = {}
+    for name in S.ALL:
+        p = pools.Pool(name)
+        objs = {}
+        for t in SHARED_TEXTS:
+            try:
+                v = S.make(name, t)
+            except Exception:  # noqa: BLE001
+                continue
+            if p.insert(t, v):
+                objs[t] = v
+        if not p.hashable:
+            continue
+        rk = {}
+        for i, cl in enumerate(p.classes):
+            for t, _v in cl:
+                if t in objs:
+                    rk[t] = i
+        if len(rk) >= 3:
+            tables[name] = (rk, objs)
+    work = []
+    for _ in range(300 if ctx.thorough else 120):
+        n = rng.choice([2, 3, 3, 4])
+        texts = rng.sample(SHARED_TEXTS, n)
+        cmps = [rng.choice(B.CMPRS) for _ in range(n)]
+        names = [nm for nm in tables if all(t in tables[nm][0] for t in texts)]
+        rng.shuffle(names)
+        for nm in names:
+            rk = tables[nm][0]
+            order = sorted(zip(cmps, texts), key=lambda ct: rk[ct[1]])
+            if len({rk[t] for _, t in order}) != n:
+                continue        # two of the texts are the same version in this scheme
+            work.append((nm, order))
+    lines = ["simplify %s id" % B.cons_line([(c, 2 * (i + 1)) for i, (c, _t) in enumerate(order)]) for _nm, order in work]
+    answers = common.run_model(lines) if lines else []
+    for (nm, order), line, ans in zip(work, lines, answers):
+        stream = "cross-scheme:" + nm
+        rk, objs = tables[nm]
+        n = len(order)
+        m = [("(between)", None)] * (2 * n + 2)
+        for i, (_c, t) in enumerate(order):
+            m[2 * (i + 1)] = (t, objs[t])
+        cons = [(c, 2 * (i + 1)) for i, (c, _t) in enumerate(order)]
+        arg = [VersionConstraint(comparator=B.TXT[c], version=objs[t]) for c, t in order]
+        inv = B.Inv([e if e[1] is not None else ("", object()) for e in m])
+        try:
+            out = VersionConstraint.simplify(list(arg))
+            impl_c = B.canon_cons(out, inv)
+            impl = "ok:" + B.cons_line(impl_c)
+        except B.ForeignVersion as e:
+            impl, impl_c = "foreign", None
+            why = str(e)
+        except Exception as e:  # noqa: BLE001
+            impl, impl_c = "err:" + B.exc_name(e), None
+            why = "raises " + B.exc_name(e)
+        ctx.count(stream, key=line + "|" + ",".join(t for _, t in order), nontrivial=True)
+        if impl == ans:
+            continue
+        d = {"scheme": nm, "constraints": [B.TXT[c] + t for c, t in order],
+             "history": "the same texts were simplified under other schemes earlier in this process"}
+        if impl_c is None:
+            d["clause"] = why
+            ctx.disagree(stream, line, impl, ans, True, d, spec=ans)
+        elif not is_sublist(impl_c, cons):
+            d["clause"] = "result is not a sub-list of the input"
+            d["result"] = [B.TXT[c] + m[r][0] for c, r in impl_c]
             ctx.disagree(stream, line, impl, ans, True, d, spec=ans)
         else:
             ctx.disagree(stream, line, impl, ans, False, d, spec=ans)
